@@ -14,8 +14,13 @@
   * `C14_value_sites`: the positions whose delimiters are documented as omitted apply `[1:-1]`
     (flags regenerated from the call sites on every run);
   * `C14_inner`: `[1:-1]` removes exactly the first and the last token.
-  Where a value stops (terminator sets per position, the `<` heuristic): oracle `positions`
-  and correspondence `parse[values]` (named; not proof).
+  * `C14_value_stops`: on a stream that yields a value whose top level has the shape
+    `TopLevel types` (tokens that are neither terminators nor openers, and bracket groups with
+    properly nested content — terminators inside brackets are fine) followed by a terminator,
+    `_consume_value_until` returns exactly the value's tokens and leaves the terminator in
+    the stream.
+  Which terminator set each position uses and values outside `TopLevel` (the `<` heuristic):
+  oracle `positions` and correspondence `parse[values]` (named; not proof).
 -/
 import CxxModel.Theorems.Stream
 import CxxModel.Tables
@@ -46,5 +51,29 @@ theorem C14_inner (a z : CTok) (mid : List CTok) : P.inner (a :: (mid ++ [z])) =
 theorem C14_value_sites :
     Gen.fnThrowSliced = true ∧ Gen.fnNoexceptSliced = true ∧ Gen.methodThrowSliced = true ∧
     Gen.methodNoexceptSliced = true ∧ Gen.decltypeSliced = true ∧ Gen.arraySizeSliced = true := value_sites_conform
+
+
+theorem C14_value_stops (env : Env) (types : List String) (vals : List Tok) (term : Tok)
+    (hn : TopLevel types (vals.map (·.type))) (hterm : types.contains term.type = true)
+    (F : Nat) (rtoks : List CTok) (w : World) (bmid b' : Buf)
+    (hy : Yields env.cfg w.buf vals bmid) (htok : tokenEofOk env.cfg bmid = .ok (some term, b'))
+    (hF : vals.length + 2 ≤ F) :
+    ∃ (w' : World) (res : List CTok) (t' : Tok),
+      interp env (P.consumeValueUntil F rtoks types) w = (w', .ok res) ∧
+      w'.buf = returnToken t' b' ∧ t'.tv = term.tv ∧ SameParse w w' ∧
+      res.map CTok.tv = rtoks.map CTok.tv ++ vals.map Tok.tv := by
+  cases F with
+  | zero => omega
+  | succ F =>
+    exact consumeValueUntil_stops env types _ hn vals rfl term hterm F F rtoks w bmid b' hy htok (by omega) (by omega)
+
+/-! non-vacuity: `f ( a , b ) + x [ 1 ]` is a value for the terminators `,` `;` although it
+    contains a comma inside the parentheses -/
+example : TopLevel [",", ";"] ["NAME", "(", "NAME", ",", "NAME", ")", "+", "NAME", "[", "INT_CONST_DEC", "]"] :=
+  .atom _ _ (by decide) (by decide)
+    (.group "(" ")" ["NAME", ",", "NAME"] ["+", "NAME", "[", "INT_CONST_DEC", "]"] (by decide) (by decide)
+      (.atom _ _ (by decide) (by decide) (.atom _ _ (by decide) (by decide) (.atom _ _ (by decide) (by decide) .nil)))
+      (.atom _ _ (by decide) (by decide) (.atom _ _ (by decide) (by decide)
+        (.group "[" "]" ["INT_CONST_DEC"] [] (by decide) (by decide) (.atom _ _ (by decide) (by decide) .nil) .nil))))
 
 end Cxx
